@@ -74,9 +74,6 @@ Proof.
     + inversion H1; subst. exact Hi.
   - (* KEYS *)
     cbn [run_req] in H. inversion H; subst. exact Hi.
-  - (* SCAN with any cursor *)
-    cbn [run_req] in H. inversion H as [H1]; clear H.
-    repeat match type of H1 with context [match ?x with _ => _ end] => destruct x end; inversion H1; subst; exact Hi.
 Qed.
 
 Lemma inv_exec e s args s' r log : inv s -> exec O true e s args = Done s' r log -> inv s'.
@@ -345,12 +342,6 @@ Theorem refines_ff_refuted :
   exists sf rs, run toy_oracle true [] ff_prog = Some (sf, rs) /\ snd (srun toy_oracle [] ff_prog) <> rs.
 Proof. eexists. eexists. split; [vm_compute; reflexivity|]. vm_compute. discriminate. Qed.
 
-(* finding C01-scan-count-cursor: SCAN key CURSOR c COUNT converts the uint64 cursor with int(): for
-   c >= 2^63 the "count" exceeds the number of objects (here 1 object, cursor 2^64-1: the handler
-   answers 2, the plain map 0) *)
-Theorem scan_count_cursor_refuted :
-  exists s, run toy_oracle true [] f1_prog_prefix = Some (s, [ROk str_OK]) /\
-    let q := QScan w_k 18446744073709551615 0 [] false OUT_COUNT false in
-    run_req toy_oracle true (toy_env 6) s q = Some (s, RInt 2, false) /\
-    sexec toy_oracle matchesb (toy_env 6) (abs s) q = (abs s, RInt 0, false).
-Proof. eexists. split; [vm_compute; reflexivity|]. split; vm_compute; reflexivity. Qed.
+(* (finding C01-scan-count-cursor, repaired in /repo by 3ef88bc + a8face1: the COUNT shortcut used to
+   compute col.Count() - int(cursor), so a cursor >= 2^63 gave a count above the number of objects;
+   the model above is the repaired shortcut, which also honours LIMIT.) *)
